@@ -152,10 +152,11 @@ def standin(rep: Report):
             for col in range(0, width + 3):
                 cases.append(f"{head}{body}{' ' * col}y = 2\n")
             cases.append(f"{head}{body}{unit * max(0, depth - 1)} \ty = 2\n")
+    cases += ["a = f'x } y'\n", "a = f\'\'\'\n   blech }\n\'\'\'\n", "f'{a}}'\n"]
     cases = list(dict.fromkeys(cases))
     ref = oracle.run("cpython", [{"src": c, "mode": "exec"} for c in cases])
     rejected = [c for c, r in zip(cases, ref) if not r.get("ok") and r["exc"]["cls"] in ("SyntaxError", "IndentationError", "TabError")]
-    why = {c: r["exc"]["cls"] for c, r in zip(cases, ref) if not r.get("ok")}
+    why = {c: ("fstring-single-brace" if "single '}'" in (r["exc"].get("msg") or "") else r["exc"]["cls"]) for c, r in zip(cases, ref) if not r.get("ok")}
     ours = oracle.run("parse", [{"src": c, "mode": "exec"} for c in rejected])
     si = StandIn("verdict-vs-ast.parse", f"{len(cases)} Python-lexicon inputs (all token strings of <= {k} tokens over {len(PY_TOKENS)}/26 tokens, {nmut} seeded "
                  f"single-token mutations and prefixes of {len(progs)} valid programs); those CPython rejects must be rejected")
@@ -163,7 +164,7 @@ def standin(rep: Report):
     si.distinct_nontrivial = len(rejected)
     for c, r in zip(rejected, ours):
         if r.get("ok"):
-            site = "over-accept:TabError" if why.get(c) == "TabError" else "over-accept"
+            site = "over-accept:" + why[c] if why.get(c) in ("TabError", "fstring-single-brace") else "over-accept"
             si.failures.append({"input": c, "site": site, "what": f"CPython rejects with {why.get(c)}, this parser returns a tree", "observed": (r.get("dump") or "")[:200]})
         elif r["exc"]["cls"] not in ("SyntaxError", "IndentationError", "TokenError"):
             pass        # totality is C03's business
